@@ -376,6 +376,33 @@ pub fn run(tier: &str) -> Run {
                 ucases.push(Case8 { label: format!("{kind} union {lists:?} code {code}"), ns: format!("{}-union", kind.to_lowercase()), ta: file_text(&g, "A", &[ea]), tb: file_text(&g, "B", &[eb]) });
             }
         }
+        // .. and the rest of the element: every optional sub-element that is not a member list (ROOT, ANNOTATION, FUNCTION_VERSION,
+        // IF_DATA ..) present on A's side only, on B's side only and on both, with member lists that differ so that the union is
+        // taken: A's element gains members and nothing else
+        for (kind, list) in [("GROUP", "REF_CHARACTERISTIC"), ("GROUP", "SUB_GROUP"), ("FUNCTION", "DEF_CHARACTERISTIC"), ("FUNCTION", "SUB_FUNCTION")] {
+            let union_fields: Vec<&str> = if kind == "GROUP" { vec!["SUB_GROUP", "FUNCTION_LIST", "REF_CHARACTERISTIC", "REF_MEASUREMENT"] } else { vec!["SUB_FUNCTION", "IN_MEASUREMENT", "LOC_MEASUREMENT", "OUT_MEASUREMENT", "DEF_CHARACTERISTIC", "REF_CHARACTERISTIC"] };
+            let others: Vec<String> = g.elem(kind).refs.iter().filter(|r| r.in_version(5) && !union_fields.contains(&r.tag.as_str())).map(|r| r.tag.clone()).collect();
+            for o in &others {
+                for sides in 1..4u8 {
+                    for (la, lb) in [(vec!["P"], vec!["Q", "P"]), (vec![], vec!["P"]), (vec!["P"], vec![])] {
+                        let (mut ea, mut eb) = (e(kind, "U", "c1"), e(kind, "U", "c1"));
+                        if !la.is_empty() {
+                            ea = ea.kid(kl(list, &la));
+                        }
+                        if !lb.is_empty() {
+                            eb = eb.kid(kl(list, &lb));
+                        }
+                        if sides & 1 != 0 {
+                            ea = ea.kid(ks(o, &[]));
+                        }
+                        if sides & 2 != 0 {
+                            eb = eb.kid(ks(o, &[]));
+                        }
+                        ucases.push(Case8 { label: format!("{kind} union of {list} {la:?} + {lb:?} with {o} on side(s) {sides}"), ns: format!("{}-union-rest", kind.to_lowercase()), ta: file_text(&g, "A", &[ea]), tb: file_text(&g, "B", &[eb]) });
+                    }
+                }
+            }
+        }
         let ures = par_map(ucases.len(), &|i| merge_and_check(&g, &ucases[i].ta, &ucases[i].tb), &|i| {
             println!("MACHINERY-ERROR: C08 union case hangs: {}", ucases[i].label);
             std::process::exit(2);
